@@ -17,7 +17,12 @@ func (rt *runtime) cmplEvaluateNodeStatement(node nodeStatement) Value {
 		goruntime.Gosched()
 		select {
 		case value := <-rt.otto.Interrupt:
+			// The function may run script on this runtime: the labels waiting for
+			// this statement are not for that script to take.
+			labels := rt.labels
+			rt.labels = nil
 			value()
+			rt.labels = labels
 		default:
 		}
 	}
